@@ -396,17 +396,17 @@ def searcher(ctx, cfg, b, counts):
         viol("uncertainty-sum", "uncertainty is not covariance + mean_covariance", {})
     # ---- many query rows (beyond any plausible internal block of rows): row i of the variance belongs to query i
     if cfg["id"] % 5 == 1 and q > 1:
-        idxb = np.random.default_rng(cfg["seed"] + 7).integers(0, q, size=1100)
+        idxb = np.random.default_rng(cfg["seed"] + 7).integers(0, q, size=5000)
         Cbig = call(p, cfg, "covariance", Xq[idxb], True)
         counts["many_rows"] = counts.get("many_rows", 0) + 1
-        # two evaluation orders of the same triangular solves (XLA blocks 1100 rows differently from 5): the bound Dd covers the
+        # two evaluation orders of the same triangular solves (XLA blocks 5000 rows differently from 5): the bound Dd covers the
         # final subtraction only, so a margin of 1e-7 of the prior variance is added (support comparison; observed differences are
         # below 1e-9, a row mix-up changes the value by O(variance))
-        tolb = 2 * (Dd + dkd)[idxb] + 64 * U * np.abs(Cd[idxb]) + 1e-7 * (np.abs(kd[idxb]) + 1.0)
-        if Cbig.shape != (1100,) or not (np.abs(Cbig - Cd[idxb]) <= tolb).all():
-            viol("many-rows", "among 1100 query rows, a row's variance differs from the variance of the same row in a small batch",
-                 {"rows": "Xnew[default_rng(seed + 7).integers(0, len(Xnew), 1100)]",
-                  "max_difference": float(np.abs(Cbig - Cd[idxb]).max()) if Cbig.shape == (1100,) else "shape"})
+        tolb = 2 * (Dd + dkd)[idxb] + 64 * U * np.abs(Cd[idxb]) + (1e-7 + 64 * nb * U / j) * (np.abs(kd[idxb]) + 1.0)   # u / jitter: amplification of the solves
+        if Cbig.shape != (5000,) or not (np.abs(Cbig - Cd[idxb]) <= tolb).all():
+            viol("many-rows", "among 5000 query rows, a row's variance differs from the variance of the same row in a small batch",
+                 {"rows": "Xnew[default_rng(seed + 7).integers(0, len(Xnew), 5000)]",
+                  "max_difference": float(np.abs(Cbig - Cd[idxb]).max()) if Cbig.shape == (5000,) else "shape"})
     # ---- history: one NumPy buffer refilled in place between calls - every answer is about the buffer's CURRENT content
     #      (bitwise comparison with the call on a fresh copy of that content; no tolerance)
     counts["buffer_reuse"] = counts.get("buffer_reuse", 0) + 1
